@@ -13,8 +13,12 @@ import (
 func main() {
 	level := flag.Int("level", 1, "universe level")
 	outdir := flag.String("outdir", "", "output directory")
+	funcs := flag.Bool("funcs", false, "build from uni.FuncUniverse (functions in namespaces f1, f2)")
 	flag.Parse()
 	n := uni.UniverseNS(*level)
+	if *funcs {
+		n = uni.UniverseNSFuncs(*level)
+	}
 	if err := os.MkdirAll(*outdir, 0o755); err != nil {
 		fmt.Fprintln(os.Stderr, err)
 		os.Exit(2)
